@@ -57,6 +57,7 @@ func safely(f func() M) (res M) {
 }
 
 type compiled struct {
+	src  string // set when the convenience API is to be exercised too (C01, plain variant)
 	expr *eval.Expr
 	cc   *eval.Config
 	log  *Log
@@ -68,7 +69,8 @@ func compileVariant(src string, o ConfOpts, wantProg bool) *compiled {
 	l := &Log{Phase: "compile"}
 	cc, dir := newConf(o, l)
 	c := &compiled{cc: cc, log: l}
-	rec := M{"m": maskRec(o.Mask), "how": howOf(o), "undef": o.Undefined, "ev": o.Events, "costs": costsName(o.Costs)}
+	rec := M{"m": maskRec(o.Mask), "how": howOf(o), "undef": o.Undefined, "ev": o.Events, "costs": costsName(o.Costs),
+		"dirchars": abstract(dir), "stateless": statelessRec(cc)}
 	var e *eval.Expr
 	var err error
 	p := safely(func() M {
@@ -115,6 +117,14 @@ func compileVariant(src string, o ConfOpts, wantProg bool) *compiled {
 	}
 	c.rec = rec
 	return c
+}
+
+func statelessRec(cc *eval.Config) []interface{} {
+	r := []interface{}{}
+	for _, n := range cc.StatelessOperators {
+		r = append(r, n)
+	}
+	return r
 }
 
 func howOf(o ConfOpts) string {
@@ -164,6 +174,26 @@ func drain(e *eval.Expr) {
 }
 
 // runEval evaluates the compiled variant under env and records result + effects.
+// convenience runs the top-level eval.Eval(expr, vals) (its own config via RegVarAndOp and its own
+// ctx via NewCtxFromVars), with the custom operators passed in the value map.
+func convenience(src string, env Env) M {
+	vals := map[string]interface{}{}
+	for k, v := range env {
+		vals[k] = v
+	}
+	l := &Log{Phase: "eval"}
+	for n, f := range customOps(l) {
+		vals[n] = f
+	}
+	return safely(func() M {
+		v, err := eval.Eval(src, vals, eval.RegVarAndOp(vals), eval.Optimizations(false))
+		if err != nil && strings.Contains(err.Error(), "unknown token error") {
+			return M{"t": "skip", "v": "unregistered name"}
+		}
+		return outcome(v, err)
+	})
+}
+
 func (c *compiled) runEval(env Env, idx int, reps int, withBool bool) M {
 	run := M{"e": idx}
 	var repRecs []interface{}
@@ -201,6 +231,10 @@ func (c *compiled) runEval(env Env, idx int, reps int, withBool bool) M {
 			return tv(v)
 		})
 		drain(c.expr)
+		run["conv"] = M{"t": "skip", "v": "not run"}
+		if c.src != "" {
+			run["conv"] = convenience(c.src, env)
+		}
 	}
 	return run
 }
@@ -280,7 +314,12 @@ func famEval() {
 			typ = "i"
 		}
 		before := g.illTyped
-		t, _ := g.tree(typ, 1+r.Intn(*fDepth))
+		var t *Tree
+		if i%9 == 8 {
+			t = g.spine(typ, 6+r.Intn(12))
+		} else {
+			t, _ = g.tree(typ, 1+r.Intn(*fDepth))
+		}
 		if len(t.Kids) == 0 {
 			i--
 			continue
@@ -357,8 +396,9 @@ func famEval() {
 			// the same subsets by directive / by directive overriding options, and under cost maps
 			for k := 0; k < 6; k++ {
 				mk := r.Intn(16)
-				vs = append(vs, ConfOpts{Mask: mk, How: []string{"dir", "mix"}[k%2]})
+				vs = append(vs, ConfOpts{Mask: mk, How: []string{"dir", "mix"}[k%2], Spell: r.Intn(36)})
 			}
+			vs = append(vs, ConfOpts{How: "dirx", Spell: r.Intn(1 << 20)}, ConfOpts{How: "dirx", Spell: r.Intn(1 << 20)})
 			for k := 0; k < 4; k++ {
 				vs = append(vs, ConfOpts{Mask: 8 | r.Intn(8), Costs: costMaps[1+r.Intn(len(costMaps)-1)]})
 			}
@@ -366,9 +406,11 @@ func famEval() {
 			vs = append(vs, ConfOpts{Mask: 4 | r.Intn(16), Undefined: true}, ConfOpts{Mask: r.Intn(16), Undefined: true})
 		case "C03":
 			vs = []ConfOpts{{Mask: 0}, {Mask: 15}, {Mask: r.Intn(16)}, {Mask: r.Intn(16)},
-				{Mask: 8 | r.Intn(8), Costs: costMaps[1+r.Intn(len(costMaps)-1)]}, {Mask: 4 | r.Intn(16), Undefined: true}}
+				{Mask: 8 | r.Intn(8), Costs: costMaps[1+r.Intn(len(costMaps)-1)]}, {Mask: 4 | r.Intn(16), Undefined: true},
+				{Mask: r.Intn(16), Events: []string{"report", "debug"}[r.Intn(2)]}}
 		case "C10":
-			vs = []ConfOpts{{Mask: 15}, {Mask: 1}, {Mask: r.Intn(16) | 1}, {Mask: r.Intn(16)}, {Mask: 1, How: "dir"}}
+			vs = []ConfOpts{{Mask: 15}, {Mask: 1}, {Mask: r.Intn(16) | 1}, {Mask: r.Intn(16)}, {Mask: 1, How: "dir"},
+				{Mask: 1 | r.Intn(16), NoStateless: true}} // p registered but NOT declared stateless, after configs that declare it
 		default:
 			vs = []ConfOpts{{Mask: 0}, {Mask: 15}}
 		}
@@ -380,6 +422,9 @@ func famEval() {
 		for vi, o := range vs {
 			wantProg := *fProgEvery > 0 && (id*31+vi)%*fProgEvery == 0
 			c := compileVariant(src, o, wantProg)
+			if prop == "C01" && vi == 0 && !strings.Contains(src, "K") {
+				c.src = src // (ConstantMap constants are not available through the convenience API)
+			}
 			runs := []interface{}{}
 			if c.expr != nil {
 				for ei, e := range envs {
